@@ -58,6 +58,17 @@ Theorem c09_solo_run_spec : forall load p,
 Proof. exact solo_run_spec. Qed.
 Print Assumptions c09_solo_run_spec.
 
+(* two goroutines, a schedule that interleaves inside the look-ups (goroutine 1 waits for the mutex while 0 loads):
+   both finish with the outputs they have alone *)
+Theorem c09_contended_schedule_example :
+  Forall (Forall disciplined) [[OGet 1; ORead 1; OGet 2]; [OGet 2; OGet 1; ORead 1; ORead 2]]
+  /\ let c := run (fun u => u + 100) (List.concat (repeat [0; 1; 1] 12))
+                  (init true [[OGet 1; ORead 1; OGet 2]; [OGet 2; OGet 1; ORead 1; ORead 2]]) in
+     thread_done c 0 = true /\ thread_done c 1 = true /\ thread_out c 0 = [101] /\ thread_out c 1 = [101; 102]
+     /\ map ev_tid (g_hist c) = [1; 1; 1; 0; 1; 1; 0; 1; 0; 0; 0].
+Proof. exact disciplined_programs_exist. Qed.
+Print Assumptions c09_contended_schedule_example.
+
 (* ---- the three hypotheses, discharged against the generated tables -------------------------------------------- *)
 
 Theorem c09_locked_cache : locked_cache mutex_methods = true.
